@@ -82,6 +82,11 @@ func c05Files(root string) {
 	must(os.WriteFile(filepath.Join(root, ".info_odd.txt"), ref.NewInfoFork("odd.txt", "fldr", "n/a ", "").Encode(), 0644))
 	must(os.MkdirAll(filepath.Join(root, "oddir"), 0755))
 	must(os.WriteFile(filepath.Join(root, ".info_oddir"), ref.NewInfoFork("oddir", "TEXT", "ttxt", "").Encode(), 0644))
+	// aliases: the governing privilege follows what the alias points to
+	must(os.WriteFile(filepath.Join(root, "t.txt"), []byte("target"), 0644))
+	must(os.MkdirAll(filepath.Join(root, "tdir"), 0755))
+	must(os.Symlink(filepath.Join(root, "t.txt"), filepath.Join(root, "t-alias")))
+	must(os.Symlink(filepath.Join(root, "tdir"), filepath.Join(root, "tdir-alias")))
 }
 
 type c05Ctx struct {
@@ -237,6 +242,12 @@ var c05Kinds = []c05Kind{
 	{"comment-folder", []int{ref.PSetFolderComment}, func(x c05Ctx) ref.Tx {
 		return ref.Tx{Type: ref.TSetFileInfo, Fields: []ref.Fld{ref.FS(ref.FFileName, "dir"), ref.FS(ref.FFileComment, "nice")}}
 	}, ""},
+	{"comment-and-rename-file", []int{ref.PSetFileComment, ref.PRenameFile}, func(x c05Ctx) ref.Tx {
+		return ref.Tx{Type: ref.TSetFileInfo, Fields: []ref.Fld{ref.FS(ref.FFileName, "f.txt"), ref.FS(ref.FFileComment, "nice"), ref.FS(ref.FFileNewName, "g.txt")}}
+	}, ""},
+	{"comment-and-rename-folder", []int{ref.PSetFolderComment, ref.PRenameFolder}, func(x c05Ctx) ref.Tx {
+		return ref.Tx{Type: ref.TSetFileInfo, Fields: []ref.Fld{ref.FS(ref.FFileName, "dir"), ref.FS(ref.FFileComment, "nice"), ref.FS(ref.FFileNewName, "dir2")}}
+	}, ""},
 	{"rename-file", []int{ref.PRenameFile}, func(x c05Ctx) ref.Tx {
 		return ref.Tx{Type: ref.TSetFileInfo, Fields: []ref.Fld{ref.FS(ref.FFileName, "f.txt"), ref.FS(ref.FFileNewName, "g.txt")}}
 	}, ""},
@@ -276,9 +287,56 @@ var c05Kinds = []c05Kind{
 	{"comment-folder-with-file-typed-info", []int{ref.PSetFolderComment}, func(x c05Ctx) ref.Tx {
 		return ref.Tx{Type: ref.TSetFileInfo, Fields: []ref.Fld{ref.FS(ref.FFileName, "oddir"), ref.FS(ref.FFileComment, "c")}}
 	}, ""},
+	{"comment-file-alias", []int{ref.PSetFileComment}, func(x c05Ctx) ref.Tx {
+		return ref.Tx{Type: ref.TSetFileInfo, Fields: []ref.Fld{ref.FS(ref.FFileName, "t-alias"), ref.FS(ref.FFileComment, "c")}}
+	}, ""},
+	{"comment-folder-alias", []int{ref.PSetFolderComment}, func(x c05Ctx) ref.Tx {
+		return ref.Tx{Type: ref.TSetFileInfo, Fields: []ref.Fld{ref.FS(ref.FFileName, "tdir-alias"), ref.FS(ref.FFileComment, "c")}}
+	}, ""},
+	{"rename-file-alias", []int{ref.PRenameFile}, func(x c05Ctx) ref.Tx {
+		return ref.Tx{Type: ref.TSetFileInfo, Fields: []ref.Fld{ref.FS(ref.FFileName, "t-alias"), ref.FS(ref.FFileNewName, "t-alias2")}}
+	}, ""},
+	{"rename-folder-alias", []int{ref.PRenameFolder}, func(x c05Ctx) ref.Tx {
+		return ref.Tx{Type: ref.TSetFileInfo, Fields: []ref.Fld{ref.FS(ref.FFileName, "tdir-alias"), ref.FS(ref.FFileNewName, "tdir-alias2")}}
+	}, ""},
+	{"delete-file-alias", []int{ref.PDeleteFile}, func(x c05Ctx) ref.Tx {
+		return ref.Tx{Type: ref.TDeleteFile, Fields: []ref.Fld{ref.FS(ref.FFileName, "t-alias")}}
+	}, ""},
+	{"delete-folder-alias", []int{ref.PDeleteFolder}, func(x c05Ctx) ref.Tx {
+		return ref.Tx{Type: ref.TDeleteFile, Fields: []ref.Fld{ref.FS(ref.FFileName, "tdir-alias")}}
+	}, ""},
+	{"move-file-alias", []int{ref.PMoveFile}, func(x c05Ctx) ref.Tx {
+		return ref.Tx{Type: ref.TMoveFile, Fields: []ref.Fld{ref.FS(ref.FFileName, "t-alias"), ref.F(ref.FFileNewPath, ref.PathBytes("other"))}}
+	}, ""},
+	{"move-folder-alias", []int{ref.PMoveFolder}, func(x c05Ctx) ref.Tx {
+		return ref.Tx{Type: ref.TMoveFile, Fields: []ref.Fld{ref.FS(ref.FFileName, "tdir-alias"), ref.F(ref.FFileNewPath, ref.PathBytes("other"))}}
+	}, ""},
 	{"list-drop-box", []int{ref.PViewDropBoxes}, func(x c05Ctx) ref.Tx {
 		return ref.Tx{Type: ref.TGetFileNameList, Fields: []ref.Fld{ref.F(ref.FFilePath, ref.PathBytes("Drop Box"))}}
 	}, "secret.txt"},
+	// the same folders reached by other spellings of the path: the governing privilege follows the folder
+	// the request resolves to, not the bytes of the last path item
+	{"list-drop-box-dot-item", []int{ref.PViewDropBoxes}, func(x c05Ctx) ref.Tx {
+		return ref.Tx{Type: ref.TGetFileNameList, Fields: []ref.Fld{ref.F(ref.FFilePath, ref.PathBytes("Drop Box", "."))}}
+	}, "secret.txt"},
+	{"list-drop-box-via-dotdot", []int{ref.PViewDropBoxes}, func(x c05Ctx) ref.Tx {
+		return ref.Tx{Type: ref.TGetFileNameList, Fields: []ref.Fld{ref.F(ref.FFilePath, ref.PathBytes("Drop Box", "x", ".."))}}
+	}, "secret.txt"},
+	{"list-drop-box-slash-in-item", []int{ref.PViewDropBoxes}, func(x c05Ctx) ref.Tx {
+		return ref.Tx{Type: ref.TGetFileNameList, Fields: []ref.Fld{ref.F(ref.FFilePath, ref.PathBytes("Drop Box/."))}}
+	}, "secret.txt"},
+	{"upload-file-elsewhere-via-uploads-item", []int{ref.PUploadFile, ref.PUploadAnywhere}, func(x c05Ctx) ref.Tx {
+		return ref.Tx{Type: ref.TUploadFile, Fields: []ref.Fld{ref.FS(ref.FFileName, "new.txt"), ref.F(ref.FFilePath, ref.PathBytes("Uploads/../other")), ref.F32(ref.FTransferSize, 100)}}
+	}, ""},
+	{"upload-file-elsewhere-via-dropbox-item", []int{ref.PUploadFile, ref.PUploadAnywhere}, func(x c05Ctx) ref.Tx {
+		return ref.Tx{Type: ref.TUploadFile, Fields: []ref.Fld{ref.FS(ref.FFileName, "new.txt"), ref.F(ref.FFilePath, ref.PathBytes("other", "Drop Box/..")), ref.F32(ref.FTransferSize, 100)}}
+	}, ""},
+	{"upload-folder-elsewhere-via-uploads-item", []int{ref.PUploadFolder, ref.PUploadAnywhere}, func(x c05Ctx) ref.Tx {
+		return ref.Tx{Type: ref.TUploadFldr, Fields: []ref.Fld{ref.FS(ref.FFileName, "nf"), ref.F(ref.FFilePath, ref.PathBytes("Uploads/../other")), ref.F32(ref.FTransferSize, 100), ref.F16(ref.FFolderItemCount, 1)}}
+	}, ""},
+	{"upload-file-uploads-dot-item", []int{ref.PUploadFile}, func(x c05Ctx) ref.Tx {
+		return ref.Tx{Type: ref.TUploadFile, Fields: []ref.Fld{ref.FS(ref.FFileName, "new.txt"), ref.F(ref.FFilePath, ref.PathBytes("Uploads", ".")), ref.F32(ref.FTransferSize, 100)}}
+	}, ""},
 	{"list-nested-drop-box", []int{ref.PViewDropBoxes}, func(x c05Ctx) ref.Tx {
 		return ref.Tx{Type: ref.TGetFileNameList, Fields: []ref.Fld{ref.F(ref.FFilePath, ref.PathBytes("other", "my drop box"))}}
 	}, ""},
@@ -301,11 +359,22 @@ var c05LiveProbes = []struct {
 }
 
 func c05Live(w *explore.Worker, c c05Case) {
-	var pi, grant int
-	fmt.Sscanf(c.Kind, "live:%d:%d", &pi, &grant)
+	var pi, grant, batch int
+	if n, _ := fmt.Sscanf(c.Kind, "live:%d:%d:%d", &pi, &grant, &batch); n < 2 {
+		w.Broken("bad live case %q", c.Kind)
+		return
+	}
 	pr := c05LiveProbes[pi]
+	editor := "set-user"
+	if batch == 1 {
+		editor = "update-user"
+	}
 	fail := func(clause, detail string) {
-		w.Violation("C05/live-session/"+pr.name+"/"+clause, fmt.Sprintf("probe %s grant=%d: %s", pr.name, grant, detail), 0, c)
+		sig := "C05/live-session/" + pr.name + "/" + clause
+		if batch == 1 {
+			sig = "C05/live-session/" + editor + "/" + pr.name + "/" + clause
+		}
+		w.Violation(sig, fmt.Sprintf("probe %s grant=%d edited with %s: %s", pr.name, grant, editor, detail), 0, c)
 	}
 	seqChecked(w, "C05", "live", c, func() {
 		before, after := world.Bits(ref.PReadChat), world.Bits(ref.PReadChat, pr.bit)
@@ -325,7 +394,12 @@ func c05Live(w *explore.Worker, c c05Case) {
 			w.Broken("C05 live: logins failed")
 			return
 		}
-		id := adm.Req(ref.TSetUser, ref.F(ref.FUserLogin, obf("vic")), ref.FS(ref.FUserName, "Victim"), ref.F(ref.FUserPassword, []byte{0}), ref.F(ref.FUserAccess, after[:]))
+		var id uint32
+		if batch == 1 {
+			id = adm.Req(ref.TUpdateUser, ref.F(ref.FData, subFields(ref.F(ref.FUserLogin, obf("vic")), ref.FS(ref.FUserName, "Victim"), ref.F(ref.FUserPassword, []byte{0}), ref.F(ref.FUserAccess, after[:]))))
+		} else {
+			id = adm.Req(ref.TSetUser, ref.F(ref.FUserLogin, obf("vic")), ref.FS(ref.FUserName, "Victim"), ref.F(ref.FUserPassword, []byte{0}), ref.F(ref.FUserAccess, after[:]))
+		}
 		world.Quiet()
 		if r := adm.Reply(id); r == nil || r.Err != 0 {
 			fail("set-user-refused", fmt.Sprint(r))
@@ -350,7 +424,7 @@ func c05Live(w *explore.Worker, c c05Case) {
 		if r := adm.Reply(lid); r == nil || r.Err != 0 {
 			fail("editing-another-account-changed-the-editor's-privileges", fmt.Sprint(r))
 		}
-		w.Outcome(fmt.Sprintf("live %s %d", pr.name, grant))
+		w.Outcome(fmt.Sprintf("live %s %d %s", pr.name, grant, editor))
 	})
 }
 
@@ -652,22 +726,38 @@ func c05CheckSpecial(w *explore.Worker, c c05Case) {
 		}
 		any := ref.BitSet(c.Bits, ref.PAnyName)
 		var shown string
+		obs.New()
+		// announced: the name the observer was last told by a user-change notification
+		announced := func() string {
+			name := ""
+			for _, t := range obs.New() {
+				if t.Type == ref.TNotifyChangeUser {
+					name = fieldStr(&t, ref.FUserName)
+				}
+			}
+			return name
+		}
+		var told string
 		switch c.Kind {
 		case "anyname-login":
 			u.Login123("u", "pw", "Chosen", 1)
 			world.Quiet()
+			told = announced()
 			shown = nameOf()
 		case "anyname-setinfo":
 			u.Login123("u", "pw", "AccountName", 1)
 			world.Quiet()
+			obs.New()
 			u.Req(ref.TSetClientUserInfo, ref.FS(ref.FUserName, "Chosen"), ref.F16(ref.FUserIconID, 2))
 			world.Quiet()
+			told = announced()
 			shown = nameOf()
 		case "anyname-agreed":
 			u.Login15("u", "pw")
 			world.Quiet()
 			u.Req(ref.TAgreed, ref.FS(ref.FUserName, "Chosen"), ref.F16(ref.FUserIconID, 2), ref.F16(ref.FOptions, 0))
 			world.Quiet()
+			told = announced()
 			shown = nameOf()
 		case "chat-read":
 			u.Login123("u", "pw", "AccountName", 1)
@@ -696,6 +786,10 @@ func c05CheckSpecial(w *explore.Worker, c c05Case) {
 		}
 		if !any && shown != "AccountName" {
 			fail("name-adopted-without-privilege", "shown as "+shown)
+		}
+		// what the other users are told is what the server holds
+		if told != shown {
+			fail("announced-name-differs-from-the-listed-one", fmt.Sprintf("the observer was notified of %q, the user list shows %q", told, shown))
 		}
 		w.Outcome(fmt.Sprintf("%s %v %s", c.Kind, any, shown))
 	})
@@ -738,7 +832,7 @@ func runC05(w *explore.Worker) {
 	}
 	for pi := range c05LiveProbes {
 		for grant := 0; grant < 2; grant++ {
-			cases = append(cases, c05Case{Kind: fmt.Sprintf("live:%d:%d", pi, grant)})
+			cases = append(cases, c05Case{Kind: fmt.Sprintf("live:%d:%d", pi, grant)}, c05Case{Kind: fmt.Sprintf("live:%d:%d:1", pi, grant)})
 		}
 	}
 	// shard by kind-major order so that each worker computes few references: deal cases round robin per kind block
